@@ -37,6 +37,13 @@ EXTRA = [
     "SELECT c, count(*) AS n FROM t GROUP BY 1",
     "SELECT count(*) AS n, c FROM t GROUP BY c",
     "SELECT sum(g) AS s FROM t GROUP BY c",
+    # a select alias that is also the name of an input column (GROUP BY / ORDER BY / WHERE see the input column first)
+    "SELECT abs(g) AS g, count(*) AS n FROM t GROUP BY g",
+    "SELECT a + 1 AS a, sum(g) AS s FROM t GROUP BY a",
+    "SELECT c * 0 AS c, count(*) AS n FROM t GROUP BY c",
+    "SELECT g AS a, a AS g FROM t WHERE a > 2",
+    "SELECT -g AS g, a FROM t ORDER BY g",
+    "SELECT abs(g) AS g, sum(a) AS s FROM t GROUP BY g HAVING sum(a) > 1",
     # HAVING
     "SELECT c, sum(a) AS s FROM t GROUP BY c HAVING sum(a) > 3",
     "SELECT c, sum(a) AS s FROM t GROUP BY c HAVING count(*) > 1",
